@@ -1261,6 +1261,7 @@ func (f *frame) builtin(name string, args []Value, c *ssa.CallCommon, pos token.
 			panic(goPanic{msg: "close of closed channel"})
 		}
 		cc.closed = true
+		cc.closeVC = m.sched.cur.release()
 		return nil
 	case "len", "cap":
 		switch x := m.force(args[0]).(type) {
